@@ -19,8 +19,12 @@ def prebuild(repo):
     stage("w_c16", repo)
 
 
-def _scen_class(rec):
-    return "faulty-signer" if rec.get("faulty") else "all-honest"
+def _scen_class(rec, erased=False):
+    """scenario class of a violation key; `erased`: the library logged that DL-Key-Gen (the key
+    generation or the a-generation inside this Sign) dropped a party from QUAL after the Joint-RVSS
+    that fixed the shares - the signature of the known finding described in notes/c16.md"""
+    c = "faulty-signer" if rec.get("faulty") else "all-honest"
+    return c + ("+party-erased-after-joint-rvss" if erased else "")
 
 
 def post(recs, merged):
@@ -104,6 +108,10 @@ def post(recs, merged):
         cls = _scen_class(rr)
         t = rr["thr"]
         desc = json.dumps({k: rr[k] for k in ("scheme", "n", "thr", "faulty", "fmode", "keygen_faulty", "cut", "subset")})
+        # did the key generation drop a party after the Joint-RVSS for x (library log line)?
+        key_erased = any(r.get("erased", 0) > 0 for r in keys if r["honest"] and r["phase"] == "gen")
+        if key_erased:
+            bump("%s_keygen_with_party_erased_after_joint_rvss" % sch)
         # public key: equal at all honest parties that finished key generation, unchanged afterwards
         y_ref = None
         byph = {}
@@ -134,7 +142,7 @@ def post(recs, merged):
                     x = c16_ref.lagrange_at_zero(pts, q)
                     bump("dss_key_share_checks")
                     if pow(g, x, p) != yv:
-                        viol("C16/dss/public-key-not-of-shared-secret/%s" % cls,
+                        viol("C16/dss/public-key-not-of-shared-secret/%s" % _scen_class(rr, key_erased),
                              "g^x != y for the secret x interpolated from t+1 honest shares after %s" % prs[0]["phase"],
                              c, dict(scenario=rr, phase=prs[0]["phase"], parties=[r["party"] for r in hon[:t + 1]], y=str(yv)), desc)
                 if sch == "nts" and not rr["faulty"] and len(hon) == rr["n"]:
@@ -155,6 +163,10 @@ def post(recs, merged):
                 continue
             m = int(prs[0]["m"])
             phase = prs[0]["phase"]
+            sign_erased = any(r.get("erased", 0) > 0 for r in judged)
+            if sign_erased:
+                bump("%s_signing_runs_with_party_erased_after_joint_rvss" % sch)
+            icls = _scen_class(rr, sign_erased or key_erased)
             outs = set((r["a"], r["s"]) for r in judged)
             if len(outs) > 1:
                 viol("C16/%s/signatures-differ/%s" % (sch, cls),
@@ -173,12 +185,13 @@ def post(recs, merged):
                     bump("%s_outputs_valid" % sch)
                 else:
                     allvalid = False
-                    viol("C16/%s/invalid-signature-completed/%s" % (sch, cls),
+                    viol("C16/%s/invalid-signature-completed/%s" % (sch, icls),
                          "Sign returned true at an honest party but the output is not a valid %s signature on the "
                          "message under the public key (n=%d t=%d faulty=%s phase=%s)"
                          % ("Schnorr" if sch == "nts" else "DSA", rr["n"], rr["thr"], rr["faulty"], phase), c,
                          dict(scenario=rr, phase=phase, party=r["party"], m=r["m"], a=r["a"], s=r["s"], y=r["y"],
                               group=dict(p=str(p), q=str(q), g=str(g)), library_verify=r["lv"],
+                              party_erased_after_joint_rvss=dict(in_this_sign=sign_erased, in_key_generation=key_erased),
                               all_outputs={str(x["party"]): [x["ret"], x["a"], x["s"]] for x in prs}), desc)
                 if bool(r["lv"]) != ok:
                     viol("C16/%s/verify/own-output-%s" % (sch, "accepted-invalid" if r["lv"] else "rejected-valid"),
